@@ -39,6 +39,9 @@ def build(desc, side, ctx=None):
     b.tool, b.ctx, b.side = tool, ctx, side
     b.srcs = []
     for i, s in enumerate(desc["srcs"]):
+        if s.get("alias") is not None:
+            b.srcs.append(b.srcs[s["alias"]])  # the very same object once more
+            continue
         items = mats(s["items"])
         if tool.callsrc:
             src = CallSource(ctx, f"s{i}", items, s, side, mat(s["tail"]))
